@@ -73,7 +73,7 @@ static void run_grid(int level)
    OpusMSEncoder *st = (OpusMSEncoder *)calloc(1, align(sizeof(OpusMSEncoder)) + opus_encoder_get_size(2));
    int n, c; long cases = 0, layouts = 0;
    static const int big[] = {12, 16, 31, 32, 64, 100, 127, 128, 129, 170, 200, 254, 255};
-   int nmax = level ? 24 : 7, bi;
+   int nmax = level ? 24 : 5, bi;
    for (n = 1; n <= nmax; n++) for (c = 0; c <= n && n + c <= 255; c++) {
       cases += grid_layout(st, n, c, -1, 0); layouts++;
       cases += grid_layout(st, n, c, -1, 1); layouts++;
@@ -81,8 +81,9 @@ static void run_grid(int level)
    }
    for (bi = 0; bi < (int)(sizeof big / sizeof big[0]); bi++) {
       int cs[6], k; n = big[bi]; if (n <= nmax) continue;
+      if (!level && n != 16 && n != 128 && n != 255) continue;
       cs[0] = 0; cs[1] = 1; cs[2] = n / 2; cs[3] = IMIN(n, 255 - n); cs[4] = IMAX(0, IMIN(n, 255 - n) - 1); cs[5] = n / 3;
-      for (k = 0; k < (level ? 6 : 4); k++) {
+      for (k = 0; k < (level ? 6 : 3); k++) {
          int dup = 0, j; c = cs[k];
          for (j = 0; j < k; j++) if (cs[j] == c) dup = 1;
          if (dup || c > n || n + c > 255) continue;
